@@ -14,16 +14,20 @@ for d in sorted(glob.glob("seeded/C*")):
     v = m.get("verified_by_builder", {})
     rows.append("| %s | %s | %s | %s | %s |" % (os.path.basename(d), ", ".join(m.get("files") or [])[:70], (m.get("summary") or "")[:150].replace("|", "/").replace("\n", " "),
                                               v.get("result", "not run"), (v.get("first_signature") or "").replace("|", "/")[:90]))
-body += ("\n### 11.8 Seeded changes: which check catches which\n\nOne hundred changes written by independent sub-agents from the property text alone, in five rounds of 20 "
+body += ("\n### 11.8 Seeded changes: which check catches which\n\nOne hundred and twenty changes written by independent sub-agents from the property text alone, in six rounds of 20 "
          "(each keeps the test suite at its baseline; from round 3 on each agent was told what the earlier changes for its property touched and asked "
          "for a different mechanism).  Home check, quick tier, default seed; `tools/seedreport2.py` applies each patch to a scratch worktree of /repo's HEAD "
          "and runs the registered command against it.  **First contact** matters more than the final column: of the 20 changes of round 3, about 11 "
          "were missed or caught only by chance by the checks as they stood; of round 4, 9; of round 5, 5 (C03e, C04e, C07e, C10e, C16e) plus four "
-         "that were caught through a single document.  Every miss was a gap in the *input space or observation*, never in a specification: each was "
+         "that were caught through a single document; of round 6 — whose agents were told what the five earlier changes for their property touched — 11 "
+         "(C01f C02f C03f C05f C07f C09f C12f C15f C16f C18f C20f).  Every miss was a gap in the *input space or observation*, never in a specification: each was "
          "closed by enumerating one more family (positional alphabets K J B P W G, raw-HTML / wrapped-label / TAB / emphasis-in-link-text position "
          "families, fix and repetition families, line-ending and BOM documents, `.` in the argument pool, multi-file and cross-file runs, the API under "
-         "both return-code schemes, documented configuration values, strict mode by property) or by one more observation (hard breaks in C08, report "
-         "positions in C05, processing order in C19, exact shape lists instead of patterns in C19's known findings).  The table shows the state after that.\n\n| change | file(s) | what it does | home check (quick) | first signature |\n| --- | --- | --- | --- | --- |\n" + "\n".join(rows) + "\n")
+         "both return-code schemes, documented configuration values, strict mode by property; in round 6: positional alphabets X and Y, the raw-HTML part of `MdInline` "
+         "with its two alphabets, a good path followed by a path in error in the `App` scenarios, a document holding every inline kind, "
+         "richer documents for the isolation runs, YAML front-matter variants with and without the extension and under rule subsets, "
+         "directory entry points of CLI and API, paragraphs with three and more edits in one text token) or by one more observation (hard breaks in C08, report "
+         "positions in C05 — in round 6 also for the rules that report on an inline element —, processing order in C19, an extension must not make a parsing document fail (C20), exact shape lists instead of patterns in C19's known findings).  The table shows the state after that.\n\n| change | file(s) | what it does | home check (quick) | first signature |\n| --- | --- | --- | --- | --- |\n" + "\n".join(rows) + "\n")
 if os.path.exists("tools/design_section11_tail.md"):
     body += "\n" + open("tools/design_section11_tail.md").read()
 open("DESIGN.md", "w").write(s + body)
